@@ -15,7 +15,7 @@ impl DateTime {
     pub(crate) fn from_node(node: &Node) -> Result<Option<Self>> {
         let gps_time_text = node
             .children()
-            .find(|n| n.has_tag_name("dateTimeValue") && n.attribute("type") == Some("Float"))
+            .find(|n| crate::xml::is_tag(n, "dateTimeValue") && n.attribute("type") == Some("Float"))
             .invalid_err("Unable to find XML tag 'dateTimeValue' with type 'Float'")?
             .text();
         let gps_time = if let Some(text) = gps_time_text {
@@ -26,7 +26,7 @@ impl DateTime {
         };
 
         let atomic_reference_node = node.children().find(|n| {
-            n.has_tag_name("isAtomicClockReferenced") && n.attribute("type") == Some("Integer")
+            crate::xml::is_tag(n, "isAtomicClockReferenced") && n.attribute("type") == Some("Integer")
         });
         let atomic_reference = if let Some(node) = atomic_reference_node {
             // Any valid integer representation of one (e.g. "1", "+1" or "01") means true
